@@ -11,7 +11,7 @@
 
    Iteration order of the Python set `features` is the order of the input list (a parameter; theorems hold for every
    order).  hash_collector is a dict: an association list in insertion order, keyed by gkey. *)
-From Coq Require Import List Bool ZArith String Arith.
+From Coq Require Import List Bool ZArith String Arith Ascii.
 Import ListNotations.
 Require Import MV.Model.Options MV.Model.Identity.
 
@@ -65,23 +65,56 @@ Record gfeat := {
   g_cfw : option (list nat);
   g_ty : option nat
 }.
-(* base_similarity_properties() equal.  The code compares hash((options, frozenset(cfw))) where hash(options) =
-   hash(_make_hashable(options.group)): two features fall into one class when the CANONICAL FORMS of their group options
-   are equal up to hnorm -- which is coarser than equality of the options ([1, 2] and (1, 2) have the same canonical
-   form; "" and 0 have the same hash) *)
-(* CPython's hash is not injective on atoms either: hash("") = hash(0) = hash(False) = 0 and hash(-1) = hash(-2) = -2.
-   Tuples and frozensets hash the hashes of their elements, so canonical forms that differ only in these atoms have the
-   same hash.  Other collisions between different canonical forms are assumed away. *)
+(* (group options, compute frameworks) agree, as Python == sees it: Options.__eq__ (group only) and == of the frozensets *)
+Definition opts_agree (a b : gfeat) : bool :=
+  py_eq (VDict (g_group a)) (VDict (g_group b)) && py_eq (cfw_val (g_cfw a)) (cfw_val (g_cfw b)).
+
+(* ---------- the hash: which (group options, frameworks) get the same INTEGER ----------
+   The code compares hash((options, frozenset(cfw))) where hash(options) = hash(_make_hashable(options.group)).  Two things
+   make that coarser than equality of the options:
+   (1) _make_hashable is not injective: [1, 2] and (1, 2), a dict and the tuple of its sorted items have the same canonical
+       form (canon_eqb);
+   (2) CPython's hash is not injective on canonical forms.  What is modelled (hnorm = a normal form such that two canonical
+       forms get the same hash integer iff their normal forms are ==):
+         int        hash(z) = sign(z) * (|z| mod (2^61 - 1)), and -1 is replaced by -2 (64-bit CPython, sys.hash_info.modulus)
+                    so hash(-1) = hash(-2), hash(2^61 - 1) = hash(0), hash(2^61) = hash(1) ...
+         bool       = the int (and True == 1, so no new collision)
+         str        hash("") = 0 = hash(0) = hash(False); the hash of a non-empty str (SipHash of the bytes, keyed by
+                    PYTHONHASHSEED) is NOT computed: ASSUMED different from every other hash that occurs in the request
+         Enum       a plain Enum member hashes as its NAME (enum.Enum.__hash__ = hash(self._name_)) and is unequal to that
+                    str; the hashable opaque object number n of the harness pool is the member named opq_name n
+         None       ASSUMED different from every other hash in the request (a constant in CPython >= 3.12, an address before)
+         tuple / frozenset   functions of the element hashes (and the length / the multiset): elementwise; ASSUMED injective
+                    on the element hashes that occur.  A frozenset holding two different elements with ONE hash (e.g.
+                    {True, 2^61}; the XOR of their shuffled hashes cancels) is outside the modelled fragment: hnorm would
+                    produce a "set" with a repeated element, which py_eq does not compare as a multiset.  The harness
+                    does not generate such sets.
+       The assumptions are not used by any theorem; they are what the correspondence check tests on every generated request
+       (a collision the model does not predict, or predicts wrongly, is a disagreement = violation). *)
+Definition py_modulus : Z := 2305843009213693951%Z.          (* 2^61 - 1 *)
+Definition int_hash (z : Z) : Z :=
+  let m := Z.modulo (Z.abs z) py_modulus in
+  let h := if Z.ltb z 0 then Z.opp m else m in
+  if Z.eqb h (-1) then (-2)%Z else h.
+Definition opq_name (n : nat) : string := String "E" (String (Ascii.ascii_of_nat (48 + n)) EmptyString).
 Fixpoint hnorm (v : pyval) : pyval :=
   match v with
   | VStr s => if String.eqb s "" then VInt 0 else v
-  | VInt z => if Z.eqb z (-1) then VInt (-2) else v
+  | VInt z => VInt (int_hash z)
+  | VOpq n _ => VStr (opq_name n)            (* unhashable objects never reach a hash: hash_key = None *)
   | VTuple l => VTuple (map hnorm l)
   | VFSet l => VFSet (map hnorm l)
   | VList l => VList (map hnorm l)         (* lists / sets do not occur in canonical forms; kept uniform *)
   | VSet l => VSet (map hnorm l)
   | _ => v
   end.
+(* the canonical forms of the group options are ==, and so are the frameworks *)
+Definition canon_eqb (a b : gfeat) : bool :=
+  match hash_key (VDict (g_group a)), hash_key (VDict (g_group b)) with
+  | Some x, Some y => py_eq x y
+  | _, _ => false
+  end && py_eq (cfw_val (g_cfw a)) (cfw_val (g_cfw b)).
+(* base_similarity_properties() equal: the same hash integer *)
 Definition base_eqb (a b : gfeat) : bool :=
   match hash_key (VDict (g_group a)), hash_key (VDict (g_group b)) with
   | Some x, Some y => py_eq (hnorm x) (hnorm y)
